@@ -18,8 +18,9 @@ ABSORBED = {'C02-G': 'F28 (318b962): the wrap test which this change altered was
             'C07-F': 'F22 (add28c3): the acknowledgement goes out before the payload of a skipped BigMessage is discarded; the demonstration waits for a return which no longer comes at that point (it fails on the repaired tree without the change too)',
             'C08-H': 'its demonstration no longer fails on the repaired tree (since F24 the resend writes a DUP packet as two buffers and the scripted stall no longer hits); applied as a mutant (tools/mutant.sh seeded/C08-H/patch.diff C08) the change is still caught by C08'}
 ids = sys.argv[1:] or sorted(os.path.basename(d) for d in glob.glob(os.path.join(here, 'seeded', 'C*-*')))
-out = os.path.join(here, 'seeded', 'RESULTS.json')
+out = os.environ.get('SEEDED_RESULTS') or os.path.join(here, 'seeded', 'RESULTS.json')  # (a private file per partition; merge afterwards)
 res = json.load(open(out)) if os.path.exists(out) else {}
+partial = bool(os.environ.get('SEEDED_RESULTS'))
 for i in ids:
     d = os.path.join(here, 'seeded', i)
     prop = i.split('-')[0]
@@ -52,6 +53,8 @@ for i in ids:
                 needs_to_manifest=notes[:1500], confirmed_by='tools/seeded.sh: patch applied to a private copy of /repo; go build, go vet and the '
                 'repository tests green twice; demonstration fails 3/3 with the change and passes 3/3 without', result=entry)
     json.dump(meta, open(os.path.join(d, 'meta.json'), 'w'), indent=1, ensure_ascii=False)
+if partial:
+    sys.exit(0)
 with open(os.path.join(here, 'seeded', 'RESULTS.md'), 'w') as f:
     f.write('| seeded change | confirmed | check | status | wall s | first violation reported |\n|---|---|---|---|---|---|\n')
     for k in sorted(res):
